@@ -155,14 +155,15 @@ Theorem cconj_Q_is_restriction_of_R : forall (e : fxQ), vec_nz e -> forall w,
 Proof. exact cconj_transfer. Qed.
 Print Assumptions cconj_Q_is_restriction_of_R.
 
-(* GROUP PAIR  GroupL1Norm(S, 2) <-> IndicatorGroupL1UnitBall(S, 2) on a power space S = X^d (X with m points;
-   flat vectors of length d*m) enters the trees as the abstract pair [FPair b (group_pair sqrtf d m)]; all
-   theorems above hold for trees containing it because the pair is consistent for ALL d >= 1 and m:
-   lengths preserved, Moreau identity of proximal_l1_l2 / proximal_convex_conj_l1_l2 for every weighting,
-   Fenchel-Young for every positive weighting that repeats the base weights on the d components
-   (pointwise Cauchy-Schwarz).  The pair's gradient is not modelled. *)
+(* GROUP PAIR  GroupL1Norm(S, 2) <-> IndicatorGroupL1UnitBall(S, 2) on a product space S = X^d with positive
+   component weights cw (ProductSpace(X, d, weighting=cw); X with m points and its own weights; flat vectors
+   of length d*m) enters the trees as the abstract pair [FPair b (group_pair sqrtf cw m)] with the WEIGHTED
+   pointwise norm |x_i| = sqrt(sum_j cw_j x_ji^2) in value, conjugate and both proximals.  All theorems above
+   hold for trees containing it because the pair is consistent for ALL d >= 1, m and cw > 0: lengths
+   preserved, Moreau identity of proximal_l1_l2 / proximal_convex_conj_l1_l2, Fenchel-Young in the space's own
+   inner product sum_j cw_j <x_j, y_j>_X (weighted pointwise Cauchy-Schwarz).  Gradient not modelled. *)
 Theorem group_pair_consistent :
   forall (sqrtf : R -> R), (forall a, 0 <= a -> 0 <= sqrtf a /\ sqrtf a * sqrtf a = a) ->
-  forall m d : nat, (1 <= d)%nat -> pair_ok (d * m) (group_pair sqrtf d m).
+  forall (m : nat) (cw : list R), cwpos cw -> cw <> [] -> pair_ok (length cw * m) (group_pair sqrtf cw m).
 Proof. exact group_pair_ok. Qed.
 Print Assumptions group_pair_consistent.
